@@ -4,7 +4,10 @@
  *
  * script lines (stdin):
  *   C <chk>            create; random() returns <chk>
+ *   F                  create with an instance size no allocator can satisfy (malloc fails -> -ENOMEM)
  *   G|P|D|R <ref>      get / put / destroy / refcount_get on a handle reference
+ *   A <ref>            qb_hdb_handle_get_always      B <ref>  qb_hdb_base_convert
+ *   V <ref>            qb_hdb_nocheck_convert of the low 32 bits of the reference
  *   X                  iterator_reset          N   iterator_next
  *   #...               case separator: "# case <n>" starts a fresh database
  * handle reference:  @k[mod]  = handle returned by the k-th successful-or-not create of this case
@@ -110,12 +113,33 @@ int main(void)
 				r2 = qb_hdb_handle_put(&db, h);
 				printf("r %d 0\n", r2);
 			}
-		} else if (c == 'G') {
+		} else if (c == 'F') {
+			/* create whose instance allocation fails: malloc((size_t)-1) returns NULL */
+			qb_handle_t h = 0;
+			int32_t res;
+			next_random = 7;
+			printf("op F 0\n");
+			res = qb_hdb_handle_create(&db, -1, &h);
+			if (n_issued < MAXH) issued[n_issued++] = (res == 0) ? h : 0;
+			printf("r %d 0\n", res);
+		} else if (c == 'B') {
+			uint64_t h = resolve(arg);
+			uint64_t v;
+			printf("op B 0x%" PRIx64 "\n", h);
+			v = qb_hdb_base_convert(h);
+			printf("r 0 0x%" PRIx64 "\n", v);
+		} else if (c == 'V') {
+			uint64_t h = resolve(arg);
+			uint64_t v;
+			printf("op V 0x%" PRIx64 "\n", h & 0xFFFFFFFFu);
+			v = qb_hdb_nocheck_convert((uint32_t)(h & 0xFFFFFFFFu));
+			printf("r 0 0x%" PRIx64 "\n", v);
+		} else if (c == 'G' || c == 'A') {
 			uint64_t h = resolve(arg);
 			void *inst = (void *)0x1;
 			int32_t res;
-			printf("op G 0x%" PRIx64 "\n", h);
-			res = qb_hdb_handle_get(&db, h, &inst);
+			printf("op %c 0x%" PRIx64 "\n", c, h);
+			res = (c == 'G') ? qb_hdb_handle_get(&db, h, &inst) : qb_hdb_handle_get_always(&db, h, &inst);
 			if (res != 0 && inst != NULL) {
 				printf("note instance-not-cleared-on-failure\n");
 			}
